@@ -32,7 +32,7 @@ Sources == << Var(<<"x">>), Var(<<"m", "k">>), Var(<<"l", "0">>), Var(<<"st", "F
 Files == [inc |-> <<T(<<"i:">>), Out(Var(<<"q">>))>>]
 
 TransportKinds == <<"none", "set", "with", "forlit", "forchars", "macroarg", "macrodef", "macroouter", "concat", "arrfirst", "arrjoin",
-                    "ifchanged", "filtertag", "if", "defaultfilter", "withold", "autoescape_on", "forctx">>
+                    "ifchanged", "filtertag", "if", "defaultfilter", "withold", "autoescape_on", "forctx", "concat_safe_left", "concat_safe_right", "set_concat_safe">>
 Name(base, lv) == IF lv = 1 THEN base \o "1" ELSE base \o "2"
 
 \* Tr(kind, level, E, K): the program fragment that moves the tainted expression E through one transport and hands the
@@ -49,6 +49,9 @@ Tr(k, lv, E, K(_)) ==
     [] k = "macrodef" -> <<Macro(Name("md", lv), <<[name |-> Name("a", lv), def |-> E]>>, K(Var(<<Name("a", lv)>>))), Out(Call(Name("md", lv), <<>>))>>
     [] k = "macroouter" -> <<Set(Name("o", lv), E), Macro(Name("mo", lv), <<>>, K(Var(<<Name("o", lv)>>))), Out(Call(Name("mo", lv), <<>>))>>
     [] k = "concat" -> K(Bin("+", E, Lit(S(<<"z">>))))
+    [] k = "concat_safe_left" -> <<Macro(Name("sm", lv), <<>>, <<T(<<"<", "b", ">">>)>>)>> \o K(Bin("+", Call(Name("sm", lv), <<>>), E))
+    [] k = "concat_safe_right" -> <<Macro(Name("sm", lv), <<>>, <<T(<<"<", "b", ">">>)>>)>> \o K(Bin("+", E, Call(Name("sm", lv), <<>>)))
+    [] k = "set_concat_safe" -> <<Macro(Name("sm", lv), <<>>, <<T(<<"<", "i", ">">>)>>), Set(Name("sc", lv), Bin("+", Call(Name("sm", lv), <<>>), E))>> \o K(Var(<<Name("sc", lv)>>))
     [] k = "arrfirst" -> K(Filt(Arr(<<E, Lit(I(1))>>), <<FC("first", NoArg)>>))
     [] k = "arrjoin" -> K(Filt(Arr(<<Lit(S(<<"a">>)), E>>), <<FC("join", Lit(S(<<"x">>)))>>))
     [] k = "ifchanged" -> <<[t |-> "ifchanged", args |-> <<>>, body |-> K(E), els |-> <<>>]>>
